@@ -321,3 +321,84 @@ func SV_C04_signature_shapes() {
 	sv.Cover(!ok, "rejected")
 	sv.Observe("ok", ok)
 }
+
+// svWrongSigner: the builders return the parties the payload names in its
+// signing roles (owner, bidder, validator, voter, ...); one of the signature
+// slots is filled by another party instead. Validate must refuse.
+func svWrongSigner(e *svEnv, raw action.RawTx, signers []int) {
+	k := sv.Choice("wrong.slot", len(signers))
+	wrong := append([]int{}, signers...)
+	wrong[k] = (signers[k] + 1 + sv.Choice("wrong.offset", e.n-1)) % e.n
+	ok := e.validate(svSign(raw, wrong...))
+	sv.Assert(!ok, "transaction-signed-by-another-party-is-refused")
+	sv.Cover(!ok, "refused")
+	sv.Observe("ok", ok)
+}
+
+// SV_C04_wrong_signer_first: staking, network delegation and domain-name kinds.
+//
+// sv:bounds the pre-states and payloads of SV_C06_failed_tx_noop for STAKE, UNSTAKE, WITHDRAW (two signers), the four network delegation kinds and the seven domain-name kinds; every required signature present and made over exactly this transaction, but one slot (any) is signed by another party (any) with its own key
+// sv:outside SEND / SENDPOOL (SV_C04_admission_send); forged content (SV_C04_admission_*); other key algorithms
+// sv:goal Validate refuses
+func SV_C04_wrong_signer_first() {
+	svLean = true
+	var e *svEnv
+	var raw action.RawTx
+	var signers []int
+	switch sv.Choice("family", 3) {
+	case 0:
+		e = svNewEnv(3, 20, svPreStaking)
+		switch sv.Choice("kind", 3) {
+		case 0:
+			raw, signers = svBuildStake(e)
+		case 1:
+			raw, signers = svBuildUnstake(e)
+		default:
+			raw, signers = svBuildStakeWithdraw(e)
+		}
+	case 1:
+		e = svNewEnv(2, 20, svPreDeleg)
+		raw, signers = svBuildAnyDeleg(e)
+	default:
+		svCurrencyLimit = 1
+		pre := &svDomainPre{}
+		e = svNewEnv(2, 20, svPreONS(pre))
+		raw, signers = svBuildONS(e, sv.Choice("kind", 7))
+	}
+	svWrongSigner(e, raw, signers)
+}
+
+// SV_C04_wrong_signer_more: evidence, governance, reward withdrawal, Ethereum
+// lock / redeem / report kinds.
+//
+// sv:bounds the families of SV_C02_more except OLVM (its signature is the secp256k1 model of SV_C17_olvm_step), reduced pre-states; one slot signed by another party
+// sv:outside as SV_C04_wrong_signer_first
+// sv:goal Validate refuses
+func SV_C04_wrong_signer_more() {
+	m := svMoreKindEnv(false)
+	if m.olvm {
+		sv.Assume(false)
+	}
+	svWrongSigner(m.e, m.raw, m.signers)
+}
+
+// SV_C04_wrong_signer_bid: the six kinds of the bid application.
+//
+// sv:bounds as SV_C02_bid with the conversation active; one slot signed by another party
+// sv:goal Validate refuses
+func SV_C04_wrong_signer_bid() {
+	svCurrencyLimit = 1
+	svBidLean = true
+	m, _, _ := svBidEnv(false)
+	svWrongSigner(m.e, m.raw, m.signers)
+}
+
+// SV_C04_wrong_signer_erc20: ERC20_LOCK / ERC20_REDEEM.
+//
+// sv:bounds as SV_C02_erc20; the single slot signed by the other party
+// sv:goal Validate refuses
+func SV_C04_wrong_signer_erc20() {
+	svCurrencyLimit = 1
+	m := svERCEnv()
+	svWrongSigner(m.e, m.raw, m.signers)
+}
